@@ -55,8 +55,10 @@ Definition scope_eqb (a b : scope) : bool :=
   end.
 
 Record skey := { k_name : bytes; k_qtype : N; k_scope : scope }.
+(* "known by index 0" is how the code says "no upstream decided" *)
+Definition norm_scope (sc : scope) : scope := match sc with ScIndex 0%N => ScNone | _ => sc end.
 Definition skey_of (name : bytes) (qt : N) (sc : scope) : skey :=
-  {| k_name := lower (fqdn name); k_qtype := qt; k_scope := sc |}.
+  {| k_name := lower (fqdn name); k_qtype := qt; k_scope := norm_scope sc |}.
 Definition skey_eqb (a b : skey) : bool :=
   bytes_eqb (k_name a) (k_name b) && N.eqb (k_qtype a) (k_qtype b) && scope_eqb (k_scope a) (k_scope b).
 
@@ -171,8 +173,11 @@ Definition spec_lookup (c : cfg) (st : sstore) (now : Z) (k : skey) (o : obs) : 
   | _ => ([1000%N], st)
   end.
 
+(* for the janitor an entry is dead when it is expired now and can be served at no later instant (the last
+   instant of the stale window itself is left to the janitor's discretion) *)
 Definition dead (c : cfg) (now : Z) (r : srec) : bool :=
-  s_known r && match servable c (s_deadline r) now with None => true | Some _ => false end.
+  s_known r && (s_deadline r <=? now)
+  && match servable c (s_deadline r) (now + 1) with None => true | Some _ => false end.
 
 Definition spec_janitor (c : cfg) (st : sstore) (now : Z) (ev : list skey) : list N * sstore :=
   let is_ev (k : skey) := existsb (skey_eqb k) ev in
